@@ -486,11 +486,24 @@ func c04SetManyContainers(c *h.Ctx) {
 		}
 		cfg := gen.ValCfg{MaxElems: 6, MaxStr: 20}
 		v := gen.GenVal(cs.R, t, cfg, 1)
+		// wide calls: more paths in one SetMany than any internal scratch slice holds by default (16)
+		wide := cs.R.Chance(8)
+		if wide {
+			t = &gen.Type{T: tref.LIST, Elem: et}
+			v = &tref.Val{T: tref.LIST, ET: et.T}
+			for k := 24 + cs.R.Intn(20); k > 0; k-- {
+				v.L = append(v.L, gen.GenVal(cs.R, et, cfg, 2))
+			}
+			cs.Cover("setmany_wide_calls")
+		}
 		b := tref.Encode(v)
 		cs.Info("type", t.String())
 		cs.Info("initial", v.String())
 		node := generic.NewNode(thrift.Type(t.T), append([]byte{}, b...))
 		n := 1 + cs.R.Intn(3)
+		if wide {
+			n = 17 + cs.R.Intn(10)
+		}
 		var pns []generic.PathNode
 		alts := []*tref.Val{v}
 		desc := ""
@@ -507,6 +520,9 @@ func c04SetManyContainers(c *h.Ctx) {
 			var st mstep
 			if t.T == tref.LIST {
 				idx := cs.R.Intn(len(v.L) + 1)
+				if wide {
+					idx = cs.R.Intn(len(v.L)) // replacements only
+				}
 				if idx == len(v.L) && inserts > 0 {
 					continue // only one one-past-the-end insertion per call
 				}
